@@ -287,6 +287,18 @@ func (e *SpecEnv) Eval(x SExpr) SV {
 		return e.index(v, i)
 	case SSliceE:
 		v := e.Eval(x.X)
+		if isString(v.Typ) {
+			// s[lo:hi] of a string: the executor's Str_sub
+			lo := "0"
+			if x.Lo != nil {
+				lo = e.Eval(x.Lo).Term
+			}
+			hi := "(Str_len " + v.Term + ")"
+			if x.Hi != nil {
+				hi = e.Eval(x.Hi).Term
+			}
+			return SV{Term: fmt.Sprintf("(Str_sub %s %s %s)", v.Term, lo, hi), Typ: v.Typ}
+		}
 		if _, ok := v.Typ.Underlying().(*types.Slice); !ok {
 			e.fail("slice expr on non-slice")
 		}
